@@ -332,8 +332,8 @@ PROPS['C14'] = dict(
     rule="(a) state from {pending, attempt-in-progress, down, online, closed} x 12 methods x placement from 10 x quit from 3, unique "
          "marker in topic/filter; non-trivial = an error return under a fault. (b) " + C14B_RULE,
     assumptions=ASSUME_SIM,
-    quick=dict(engines=[rapid('^TestC14aErrorClasses', 8000)] + C14B_ENGINES_QUICK),
-    thorough=dict(engines=[rapid('^TestC14aErrorClasses', 200000, shards=14, timeout=1500)] + C14B_ENGINES_THOROUGH),
+    quick=dict(engines=[rapid('^TestC14aErrorClasses', 8000), rapid('^TestC14PingNeverWritten', 200, shards=4)] + C14B_ENGINES_QUICK),
+    thorough=dict(engines=[rapid('^TestC14aErrorClasses', 200000, shards=14, timeout=1500), rapid('^TestC14PingNeverWritten', 6000, shards=8, timeout=1500)] + C14B_ENGINES_THOROUGH),
 )
 
 PROPS['C15'] = dict(
@@ -417,7 +417,7 @@ RULE_ADDENDA = {
            "be closed; Close itself need not beat such a Dialer). State next-write-fails (the next Write on the connection times out or resets: DISCONNECT itself, if no request comes first). Behind the recording Persistence double sits, per case, its own map (5 in 8), the library's in-memory map (2 in 8) or mqtt.FileSystem on a scratch directory (1 in 8). One case in five runs on a session made the way VolatileSession makes it (the library's map, no checksum layer). Every error ReadSlices returns before ErrClosed must get a non-nil ReadBackoff. State connecting-behind-a-slow-save: a publisher sits inside a parked Persistence.Save (holds its sequence lock), the connection is lost, the read routine reconnects up to the wait for that lock, the shutdown arrives, the Save completes afterwards. State connect-write-parked: the peer stops taking bytes inside the CONNECT. After the shutdown every connection starts with (a prefix of) the CONNECT of the Config and carries whole packets only. One online case in four has a connection whose Close takes its time: a Close call which returns while another shutdown call still sits in conn.Close must find the signals flipped. TestC12LibraryDialers: NewDialer / NewTLSDialer over loopback TCP against a peer which accepts and stays silent; Close, Disconnect(nil) and Disconnect(fired quit) after 0-30 ms of dialing must return and ReadSlices must report ErrClosed within the hang oracle's quiet period (5 s).",
     'C13': "Also: after a violation and the redial a PUBLISH is sent on the fresh connection and must come out as sent (clean "
            "slate: no skip count, big-message marker or partial packet carried over). Setup may include 0-2 publishes per level refused by a failing Save; announced topic lengths up to 0xffff. TestC13AckBeforeWritten: 0-2 pending transfers, the next publish parks 0-12 bytes into its Write, the broker acknowledges everything including the packet in transit, the Write then ends by reset, timeout or completion: no panic, the call returns, the session goes on. Hostile packets include acknowledgements whose identifier is plausible (the one next in line among them) followed by 1-2 surplus bytes. One stream in six is cut 1-200 bytes short of its end (silence inside the last packet, e.g. in the payload of a message beyond the read buffer which the application does not read).",
-    'C14': "Simulated half, state online without fault: in 1 of 3 cases an earlier persisted publish of the level was refused (its Save failed); the publish which follows must be accepted, report no submission error on its exchange and be on the wire. In 1 of 4 online cases the connection's Close reports an error (as a TLS close_notify to a peer which is gone).",
+    'C14': "Simulated half, state online without fault: in 1 of 3 cases an earlier persisted publish of the level was refused (its Save failed); the publish which follows must be accepted, report no submission error on its exchange and be on the wire. In 1 of 4 online cases the connection's Close reports an error (as a TLS close_notify to a peer which is gone). TestC14PingNeverWritten: Ping A written and abandoned, its PINGRESP late; a Subscribe/Publish parked inside Write holds the write lock; Ping B queues behind it; B's slot is emptied by the late PINGRESP or by a connection loss, before or after B's quit fires; when the transports took no byte while B ran, B's return must not be nil, ErrAbandoned or ErrBreak (the classes which say that the PINGREQ was submitted). Non-trivial: no byte was written while B ran.",
     'C15': "Also (stored-values half): the Persistence double reads the buffers when a slow Save gets to them, not on entry; "
            "slowSave overlaps Saves of the read routine and of both publish levels. A single-byte alteration of an inbound marker must be reported by AdoptSession too; the parked publish of slowSave may be retained, and 0-2 QoS 0 publishes compose their packets meanwhile. In 1 of 4 adoptions of the damaged store Persistence.Delete fails once (no panic, still reported, never used). Behind the recording Persistence double sits, per case, its own map (5 in 8), the library's in-memory map (2 in 8) or mqtt.FileSystem on a scratch directory (1 in 8). After the adoption of the altered store the first ReadSlices must neither panic nor fail (client-identifier record excepted: F17). TestC15MarkerDamagedLive: a reception marker is altered in one byte or cut while the client runs, then the broker retransmits the PUBLISH: ReadSlices must report an error, not deliver again in silence. The adoption at the end may use a Config with CleanSession (1 in 3).",
     'C16': "Also: AtLeastOnceMax/ExactlyOnceMax from {16,16,2,3,4}; 1 in 8 adoptions with Persistence.Delete failing once "
